@@ -608,4 +608,113 @@ theorem revVolume_first_order (R : ℝ) (u : ℝ → ℝ) (hu : Continuous u) (h
 
 end volume
 
+/-! ### perimeter of a perturbed circle: no first-order term -/
+
+section perimeter
+open MeasureTheory
+
+/-- perimeter of the closed polar curve `r(φ)`, `r1 = r'` -/
+noncomputable def polarPerimeter (r r1 : ℝ → ℝ) : ℝ := ∫ x in (0:ℝ)..(2*π), Real.sqrt (r x ^ 2 + r1 x ^ 2)
+
+theorem sqrt_sandwich (r r1 : ℝ) (hr : 0 < r) : r ≤ Real.sqrt (r ^ 2 + r1 ^ 2) ∧ Real.sqrt (r ^ 2 + r1 ^ 2) ≤ r + r1 ^ 2 / (2 * r) := by
+  constructor
+  · calc r = Real.sqrt (r ^ 2) := (Real.sqrt_sq hr.le).symm
+      _ ≤ Real.sqrt (r ^ 2 + r1 ^ 2) := Real.sqrt_le_sqrt (by nlinarith [sq_nonneg r1])
+  · have hpos : 0 ≤ r + r1 ^ 2 / (2 * r) := by positivity
+    rw [show r + r1 ^ 2 / (2 * r) = Real.sqrt ((r + r1 ^ 2 / (2 * r)) ^ 2) from (Real.sqrt_sq hpos).symm]
+    apply Real.sqrt_le_sqrt
+    have : (r + r1 ^ 2 / (2 * r)) ^ 2 = r ^ 2 + r1 ^ 2 + (r1 ^ 2 / (2 * r)) ^ 2 := by field_simp; ring
+    rw [this]; nlinarith [sq_nonneg (r1 ^ 2 / (2 * r))]
+
+/-- **The perimeter of a perturbed circle has no first-order term when the perturbation has zero mean**: for `|ε| m ≤ ½`
+`2πR ≤ P[R(1 + εu)] ≤ 2πR + 2πR m₁² ε²` (`m`, `m₁` bounds of `|u|`, `|u'|`) -/
+theorem perimeter_sandwich (R : ℝ) (hR : 0 < R) (u u1 : ℝ → ℝ) (hu : Continuous u) (hu1 : Continuous u1) (m m1 : ℝ)
+    (hm : ∀ x, |u x| ≤ m) (hm1 : ∀ x, |u1 x| ≤ m1) (hmean : ∫ x in (0:ℝ)..(2*π), u x = 0) (ε : ℝ) (hε : |ε| * m ≤ 1 / 2) :
+    2 * π * R ≤ polarPerimeter (fun x => R * (1 + ε * u x)) (fun x => R * (ε * u1 x)) ∧
+    polarPerimeter (fun x => R * (1 + ε * u x)) (fun x => R * (ε * u1 x)) ≤ 2 * π * R + 2 * π * R * m1 ^ 2 * ε ^ 2 := by
+  have h2pi : (0:ℝ) ≤ 2 * π := by positivity
+  have hrpos : ∀ x, R / 2 ≤ R * (1 + ε * u x) := by
+    intro x
+    have : |ε * u x| ≤ 1 / 2 := by
+      rw [abs_mul]; exact le_trans (mul_le_mul_of_nonneg_left (hm x) (abs_nonneg ε)) hε
+    have := (abs_le.mp this).1
+    nlinarith
+  have hcont : Continuous fun x => Real.sqrt ((R * (1 + ε * u x)) ^ 2 + (R * (ε * u1 x)) ^ 2) := by fun_prop
+  have hlin : ∫ x in (0:ℝ)..(2*π), R * (1 + ε * u x) = 2 * π * R := by
+    have e : (fun x => R * (1 + ε * u x)) = fun x => R + (R * ε) * u x := by funext x; ring
+    have i1 : IntervalIntegrable (fun _ : ℝ => R) volume 0 (2 * π) := ii continuous_const
+    have i2 : IntervalIntegrable (fun x => (R * ε) * u x) volume 0 (2 * π) := ii (by fun_prop)
+    rw [e, intervalIntegral.integral_add i1 i2, intervalIntegral.integral_const_mul, hmean]
+    simp
+  unfold polarPerimeter
+  constructor
+  · rw [← hlin]
+    apply intervalIntegral.integral_mono_on h2pi (ii (by fun_prop)) (ii hcont)
+    intro x _
+    exact (sqrt_sandwich _ _ (lt_of_lt_of_le (by positivity) (hrpos x))).1
+  · have hup : ∀ x, Real.sqrt ((R * (1 + ε * u x)) ^ 2 + (R * (ε * u1 x)) ^ 2) ≤ R * (1 + ε * u x) + R * m1 ^ 2 * ε ^ 2 := by
+      intro x
+      have hr : 0 < R * (1 + ε * u x) := lt_of_lt_of_le (by positivity) (hrpos x)
+      refine le_trans (sqrt_sandwich _ _ hr).2 ?_
+      have h1 : (R * (ε * u1 x)) ^ 2 ≤ R ^ 2 * ε ^ 2 * m1 ^ 2 := by
+        have : u1 x ^ 2 ≤ m1 ^ 2 := by
+          rw [← sq_abs (u1 x)]; exact pow_le_pow_left₀ (abs_nonneg _) (hm1 x) 2
+        have hnn : 0 ≤ R ^ 2 * ε ^ 2 := by positivity
+        calc (R * (ε * u1 x)) ^ 2 = R ^ 2 * ε ^ 2 * u1 x ^ 2 := by ring
+          _ ≤ R ^ 2 * ε ^ 2 * m1 ^ 2 := mul_le_mul_of_nonneg_left this hnn
+      have h2 : (R * (ε * u1 x)) ^ 2 / (2 * (R * (1 + ε * u x))) ≤ R ^ 2 * ε ^ 2 * m1 ^ 2 / R := by
+        have hden : R ≤ 2 * (R * (1 + ε * u x)) := by linarith [hrpos x]
+        exact div_le_div₀ (by positivity) h1 hR hden
+      have h3 : R ^ 2 * ε ^ 2 * m1 ^ 2 / R = R * m1 ^ 2 * ε ^ 2 := by field_simp
+      linarith
+    have hint : ∫ x in (0:ℝ)..(2*π), (R * (1 + ε * u x) + R * m1 ^ 2 * ε ^ 2) = 2 * π * R + 2 * π * R * m1 ^ 2 * ε ^ 2 := by
+      have i1 : IntervalIntegrable (fun x => R * (1 + ε * u x)) volume 0 (2 * π) := ii (by fun_prop)
+      have i2 : IntervalIntegrable (fun _ : ℝ => R * m1 ^ 2 * ε ^ 2) volume 0 (2 * π) := ii continuous_const
+      rw [intervalIntegral.integral_add i1 i2, hlin]
+      simp; ring
+    rw [← hint]
+    exact intervalIntegral.integral_mono_on h2pi (ii hcont) (ii (by fun_prop)) (fun x _ => hup x)
+
+theorem hasDerivAt_zero_of_sq_bound (f : ℝ → ℝ) (C δ : ℝ) (hδ : 0 < δ) (h : ∀ ε, |ε| ≤ δ → |f ε - f 0| ≤ C * ε ^ 2) :
+    HasDerivAt f 0 0 := by
+  rw [hasDerivAt_iff_isLittleO_nhds_zero, Asymptotics.isLittleO_iff]
+  intro c hc
+  have hC : 0 < |C| + 1 := by positivity
+  rw [Metric.eventually_nhds_iff]
+  refine ⟨min δ (c / (|C| + 1)), lt_min hδ (div_pos hc hC), ?_⟩
+  intro y hy
+  rw [dist_zero_right, Real.norm_eq_abs] at hy
+  have h1 : |y| ≤ δ := le_of_lt (lt_of_lt_of_le hy (min_le_left _ _))
+  have h2 : |y| < c / (|C| + 1) := lt_of_lt_of_le hy (min_le_right _ _)
+  have hb := h y h1
+  simp only [zero_add, smul_eq_mul, mul_zero, sub_zero, Real.norm_eq_abs]
+  calc |f y - f 0| ≤ C * y ^ 2 := hb
+    _ ≤ |C| * y ^ 2 := mul_le_mul_of_nonneg_right (le_abs_self C) (sq_nonneg y)
+    _ = |C| * |y| * |y| := by rw [← sq_abs y]; ring
+    _ ≤ (|C| + 1) * (c / (|C| + 1)) * |y| := by
+        apply mul_le_mul_of_nonneg_right _ (abs_nonneg y)
+        exact mul_le_mul (by linarith) h2.le (abs_nonneg y) hC.le
+    _ = c * |y| := by field_simp
+
+/-- `|tp| ≤ Σ (|a| + |b|)` -/
+noncomputable def l1 (ps : List (ℝ × ℝ)) : ℝ := (ps.map fun p => |p.1| + |p.2|).sum
+
+theorem tp_bound (ps : List (ℝ × ℝ)) (s : ℕ) (x : ℝ) : |tp ps s x| ≤ l1 ps := by
+  induction ps generalizing s with
+  | nil => simp [tp_nil, l1]
+  | cons p ps ih =>
+    rw [tp_cons]
+    have h1 : |p.1 * sin (s * x)| ≤ |p.1| := by
+      rw [abs_mul]; exact mul_le_of_le_one_right (abs_nonneg _) (abs_sin_le_one _)
+    have h2 : |p.2 * cos (s * x)| ≤ |p.2| := by
+      rw [abs_mul]; exact mul_le_of_le_one_right (abs_nonneg _) (abs_cos_le_one _)
+    have := ih (s + 1)
+    simp only [l1, List.map_cons, List.sum_cons] at *
+    calc |p.1 * sin (s * x) + p.2 * cos (s * x) + tp ps (s + 1) x|
+        ≤ |p.1 * sin (s * x) + p.2 * cos (s * x)| + |tp ps (s + 1) x| := abs_add_le _ _
+      _ ≤ |p.1 * sin (s * x)| + |p.2 * cos (s * x)| + |tp ps (s + 1) x| := by linarith [abs_add_le (p.1 * sin (s * x)) (p.2 * cos (s * x))]
+      _ ≤ _ := by linarith
+
+end perimeter
+
 end DV.Fourier
